@@ -209,6 +209,7 @@ def _case(draw, tier):
         nodes, _ = draw(gen.g2_nodes(max_nodes=5, p_fail=0.0, p_cycle=0.2, p_signal=0.3, min_gates=1, max_gates=3))
     return {"part": "A", "nodes": nodes, "flaw": flaw, "nested": prob(draw, 0.3), "via_add_nodes": prob(draw, 0.3),
             "present": draw(st.sampled_from([None, None, "swap", "wrap"])) if flaw in PRESENTABLE else None,
+            "none_default": draw(st.booleans()),  # the lonely default is `=None` (a default like any other)
             "bad_name": draw(st.sampled_from(["class", "for", "END", "not-an-identifier", "1abc", "has space"])), "sep": draw(st.sampled_from([".", "/"]))}
 
 
@@ -365,7 +366,7 @@ def _part_a(case, ev):
                     if has:
                         d = {k: v for k, v in n["defaults"].items() if k != p}
                     else:
-                        d = {**n.get("defaults", {}), p: ["lonely", p]}
+                        d = {**n.get("defaults", {}), p: (None if case.get("none_default") else ["lonely", p])}
                 else:
                     if not has:
                         continue
